@@ -1,7 +1,20 @@
 import Model.Rfc6979
 import Proofs.Bits
+import Proofs.RfcSpec
+import Proofs.RfcMain
+import Proofs.RfcRetry
 /-!
-# C04 — deterministic nonces follow RFC 6979 exactly
+# C04 — deterministic nonces and signatures follow RFC 6979 exactly
+
+Model: `Model/Rfc6979.lean` (tied to `rfc6979.py` / `keys.py` by the correspondence run of
+`harness/props/C04.py`, with every HMAC call of the real code recorded and replayed as the model's
+`hmac` parameter).  Specification: `Proofs/RfcSpec.lean` — RFC 6979 §2.3, §3.2 a–h, §3.6 over bit strings.
+
+`hmac` is an arbitrary function whose outputs all have `hlen > 0` bytes.
+
+**Cannot be proved, hence not claimed: termination.**  Whether `generate_k` returns depends on HMAC
+eventually producing a candidate in `[1, q−1]`; the real code has the same unbounded `while True`.
+Every statement is "if the model returns k then …"; `none` = fuel exhausted is not an outcome of the code.
 -/
 namespace C04
 open Rand Bits Rfc6979
@@ -10,21 +23,133 @@ open Rand Bits Rfc6979
 (the whole string when it has at most `qlen` bits).  The code's `int(hexlify(data), 16) >> (8·len − qlen)`
 computes exactly that, for every `qlen` — byte-aligned or not. -/
 theorem bits2int_shift (data : Bytes) (qlen : Nat) (h : data ≠ []) :
-    bits2int data qlen = .ok (bitsVal ((bitsOfBytes data).take qlen)) := by
-  have hne : data.isEmpty = false := by cases data <;> simp_all
-  unfold bits2int
-  rw [bitsVal_take, bitsVal_bitsOfBytes, bitsOfBytes_length]
-  simp only [hne, Bool.false_eq_true, if_false]
-  split
-  · rw [Nat.shiftRight_eq_div_pow]; congr 3; omega
-  · rename_i hle
-    have : 8 * data.length - qlen = 0 := by omega
-    rw [this]; simp
+    bits2int data qlen = .ok (bitsVal ((bitsOfBytes data).take qlen)) := Rfc.bits2int_model data qlen h
 
 /-- the only failure of `bits2int`: `int(b"", 16)` on an empty input -/
 theorem bits2int_empty (qlen : Nat) : bits2int [] qlen = .error .valueError := rfl
 
 /-- non-vacuity: 9 leftmost bits of ff 01 (a non-byte-aligned qlen) -/
 example : bits2int [255, 1] 9 = .ok 510 ∧ bitsVal ((bitsOfBytes [255, 1]).take 9) = 510 := by decide +kernel
+
+/-- `qlen` of the specification is the binary length of `q`, and the code's `orderlen(q)` is `rlen/8 = ⌈qlen/8⌉` -/
+theorem qlen_is_binary_length (q : Nat) (hq : 1 ≤ q) :
+    2 ^ (Rfc.qlen q - 1) ≤ q ∧ q < 2 ^ Rfc.qlen q ∧ Util.orderlen q = (Rfc.qlen q + 7) / 8 :=
+  ⟨(Rfc.qlen_spec q hq).1, (Rfc.qlen_spec q hq).2, Rfc.orderlen_eq q⟩
+
+/-- RFC 6979 §2.3.3: `number_to_string(x, q)` is `int2octets(x)` — the `rlen/8 = ⌈qlen/8⌉` big-endian
+base-256 digits of `x` — whenever `x` fits (in particular for every `x < q`); and when it succeeds at
+all, `x` fits and the result is `int2octets(x)`. -/
+theorem number_to_string_is_int2octets (x q : Nat) :
+    (x < q → Util.numberToString x q = .ok (Rfc.int2octets (Rfc.rolen q) x)) ∧
+    (∀ s, Util.numberToString x q = .ok s → s = Rfc.int2octets (Rfc.rolen q) x ∧ x < 256 ^ Rfc.rolen q) := by
+  constructor
+  · intro h
+    rw [Rfc.numberToString_of_lt (Nat.lt_trans h (Rfc.lt_pow_orderlen q)), Rfc.int2octets_eq_beFixed, Rfc.rolen_eq_orderlen]
+  · intro s h
+    have := Rfc.numberToString_ok h
+    rw [Rfc.int2octets_eq_beFixed, Rfc.rolen_eq_orderlen]
+    exact this
+
+/-- non-vacuity: 0x1234 as 3 octets for a 17-bit order -/
+example : Util.numberToString 4660 65537 = .ok [0, 18, 52] ∧ Rfc.int2octets (Rfc.rolen 65537) 4660 = [0, 18, 52] := by decide +kernel
+
+/-- RFC 6979 §2.3.4: `bits2octets(data, q) = int2octets(bits2int(data) mod q)`.  The code does a single
+conditional subtraction; that *is* the reduction because `z1 < 2^qlen ≤ 2q` (second conjunct). -/
+theorem bits2octets_single_subtraction (data : Bytes) (q : Nat) (hd : data ≠ []) (hq : 1 ≤ q) :
+    bits2octets data q = .ok (Rfc.int2octets (Rfc.rolen q) (Rfc.bits2int q (bitsOfBytes data) % q)) ∧
+    Rfc.bits2int q (bitsOfBytes data) < 2 * q :=
+  ⟨Rfc.bits2octets_model data q hd hq, Rfc.bits2int_lt_two_q q hq _⟩
+
+/-- non-vacuity: z1 = 0x1ffff ≥ q = 65537 is reduced by one subtraction (17-bit order, 3-byte digest) -/
+example : bits2octets [255, 255, 255] 65537 = .ok [0, 255, 254] ∧ Rfc.bits2int 65537 (bitsOfBytes [255, 255, 255]) = 131071 := by
+  decide +kernel
+
+/-- the number of HMAC blocks per candidate is the RFC's "while tlen < qlen" count -/
+theorem blocks_is_while_tlen_lt_qlen (hlen q : Nat) (hh : 0 < hlen) :
+    Rfc.qlen q ≤ 8 * hlen * Rfc.blocks hlen q ∧ (0 < Rfc.blocks hlen q → 8 * hlen * (Rfc.blocks hlen q - 1) < Rfc.qlen q) :=
+  Rfc.blocks_spec hlen q hh
+
+/-- **`generate_k` is RFC 6979.**  For every order `q`, secret `x`, digest `h1`, extra entropy,
+`retry_gen` and fuel: if the model of `generate_k` returns `k`, then `k` is the `(retry_gen + 1)`-th
+element of the RFC 6979 candidate stream `T₀, T₁, …` (§3.2 a–h, §3.6 with `extra`) that lies in
+`[1, q − 1]` (a negative `retry_gen` counts as 0, as in the code), and `1 ≤ k < q`.  No hypothesis on
+`q`, `x`, `h1` is needed: success already implies `q ≥ 2`, `x < 2^rlen` and `h1 ≠ ""`. -/
+theorem generate_k_eq_rfc (hmac : Bytes → Bytes → Bytes) (hlen : Nat) (hh : 0 < hlen)
+    (hlenH : ∀ k m, (hmac k m).length = hlen) (q x : Nat) (h1 extra : Bytes) (retry : Int) (fuel : Nat) (k : Nat)
+    (h : generateK hmac hlen q x h1 retry extra fuel = some (.ok k)) :
+    Rfc.IsNthAcceptable q (Rfc.stream hmac hlen q x h1 extra) retry.toNat k ∧ 1 ≤ k ∧ k < q := by
+  have := (Rfc.generateK_spec hmac hlen hh hlenH q x h1 extra retry fuel k h).1
+  obtain ⟨j, hj, hacc, hc⟩ := this
+  exact ⟨⟨j, hj, hacc, hc⟩, hacc.1, hacc.2⟩
+
+/-- the result of `generate_k` does not depend on the fuel (the model is the code's loop, not an approximation of it) -/
+theorem generate_k_fuel_irrelevant (hmac : Bytes → Bytes → Bytes) (hlen q x : Nat) (h1 extra : Bytes) (retry : Int)
+    (f₁ f₂ : Nat) (r₁ r₂ : Res Nat) (h₁ : generateK hmac hlen q x h1 retry extra f₁ = some r₁)
+    (h₂ : generateK hmac hlen q x h1 retry extra f₂ = some r₂) : r₁ = r₂ := by
+  rcases Nat.le_total f₁ f₂ with hle | hle
+  · have := Rfc.generateK_mono_le hmac hlen q x h1 retry extra hle r₁ h₁
+    rw [this] at h₂; exact Option.some.inj h₂
+  · have := Rfc.generateK_mono_le hmac hlen q x h1 retry extra hle r₂ h₂
+    rw [this] at h₁; exact (Option.some.inj h₁).symm
+
+/-- a toy HMAC for the non-vacuity examples: 2-byte output depending on key and message -/
+def toyHmac (k m : Bytes) : Bytes :=
+  let s := (k ++ m).foldl (fun (a : Nat) b => (a * 31 + b.toNat + 7) % 65521) 1
+  [UInt8.ofNat (s / 256), UInt8.ofNat (s % 256)]
+
+theorem toyHmac_length (k m : Bytes) : (toyHmac k m).length = 2 := rfl
+
+/-- non-vacuity: order 167 (8 bits), the model returns for retry_gen = 0 and 2, and the values are
+the 1st / 3rd acceptable stream elements computed from the specification -/
+example : generateK toyHmac 2 167 140 [0, 79] 0 [] 20 = some (.ok 93) ∧
+    generateK toyHmac 2 167 140 [0, 79] 2 [9] 20 = some (.ok 31) ∧
+    Rfc.stream toyHmac 2 167 140 [0, 79] [] 0 = 93 := by decide +kernel
+
+/-! ## the retry loop of `sign_digest_deterministic` -/
+
+/-- **next candidate on r = 0 / s = 0.**  If deterministic signing returns a signature, then for some
+`m ≥ 0`: the first `m` acceptable elements of the RFC 6979 stream each made the signing primitive
+raise `RSZeroError`, and the signature is the signing primitive's output at the `(m+1)`-th acceptable
+element (with `m = 0`, the common case: the standard ECDSA signature at the RFC 6979 nonce). -/
+theorem sign_deterministic_uses_next_candidate {σ : Type} (hmac : Bytes → Bytes → Bytes) (hlen : Nat) (hh : 0 < hlen)
+    (hlenH : ∀ k m, (hmac k m).length = hlen) (q x : Nat) (digest extra : Bytes) (sign : Nat → Res σ)
+    (kfuel fuel : Nat) (sig : σ)
+    (h : signDigestDeterministic hmac hlen q x digest extra sign kfuel fuel = some (.ok sig)) :
+    ∃ (m : Nat) (k : Nat),
+      (∀ i, i < m → ∃ ki, Rfc.IsNthAcceptable q (Rfc.stream hmac hlen q x digest extra) i ki ∧ sign ki = .error .rsZero) ∧
+      Rfc.IsNthAcceptable q (Rfc.stream hmac hlen q x digest extra) m k ∧ 1 ≤ k ∧ k < q ∧ sign k = .ok sig := by
+  unfold signDigestDeterministic at h
+  obtain ⟨m, k, hrej, hgen, hsig⟩ := Rfc.signDetLoop_ok h
+  refine ⟨m, k, ?_, ?_⟩
+  · intro i hi
+    obtain ⟨ki, hk, hs⟩ := hrej i hi
+    have := (generate_k_eq_rfc hmac hlen hh hlenH q x digest extra _ kfuel ki hk).1
+    simp only [Int.zero_add, Int.toNat_natCast] at this
+    exact ⟨ki, this, hs⟩
+  · have := generate_k_eq_rfc hmac hlen hh hlenH q x digest extra _ kfuel k hgen
+    simp only [Int.zero_add, Int.toNat_natCast] at this
+    exact ⟨this.1, this.2.1, this.2.2, hsig⟩
+
+/-- **deterministic signing is a function** of (HMAC, order, key, digest, extra entropy, signing
+primitive): the model has no other input — no entropy source, no state — and its outcome (signature
+or exception) does not depend on the fuel given to either loop: any two runs that return, return the same. -/
+theorem sign_deterministic_is_function {σ : Type} (hmac : Bytes → Bytes → Bytes) (hlen q x : Nat) (digest extra : Bytes)
+    (sign : Nat → Res σ) (kf₁ f₁ kf₂ f₂ : Nat) (r₁ r₂ : Res σ)
+    (h₁ : signDigestDeterministic hmac hlen q x digest extra sign kf₁ f₁ = some r₁)
+    (h₂ : signDigestDeterministic hmac hlen q x digest extra sign kf₂ f₂ = some r₂) : r₁ = r₂ := by
+  unfold signDigestDeterministic at h₁ h₂
+  have lift : ∀ (a b : Nat), a ≤ b → ∀ retry r, generateK hmac hlen q x digest retry extra a = some r →
+      generateK hmac hlen q x digest retry extra b = some r :=
+    fun a b hab retry r h => Rfc.generateK_mono_le hmac hlen q x digest retry extra hab r h
+  have e₁ := Rfc.signDetLoop_mono (sign := sign) (lift kf₁ (max kf₁ kf₂) (Nat.le_max_left _ _)) f₁ (max f₁ f₂) 0 r₁ (Nat.le_max_left _ _) h₁
+  have e₂ := Rfc.signDetLoop_mono (sign := sign) (lift kf₂ (max kf₁ kf₂) (Nat.le_max_right _ _)) f₂ (max f₁ f₂) 0 r₂ (Nat.le_max_right _ _) h₂
+  rw [e₁] at e₂
+  exact Option.some.inj e₂
+
+/-- non-vacuity: a signing primitive that refuses the first RFC nonce (93) with `RSZeroError`; the loop
+signs with the second acceptable candidate -/
+example : signDigestDeterministic toyHmac 2 167 140 [0, 79] []
+      (fun k => if k = 93 then .error .rsZero else .ok (k, k + 1)) 20 5 = some (.ok (2, 3)) ∧
+    generateK toyHmac 2 167 140 [0, 79] 1 [] 20 = some (.ok 2) := by decide +kernel
 
 end C04
